@@ -59,9 +59,9 @@ var c11Files = map[string]string{
 	"part.txt":    "M1, p1 = 1-6\nM2, p2 = 7-12\n",
 	"map.txt":     "s1\tt1\ns3\tt3\n",
 	"names.txt":   "s1\ns3\n",
-	"coords.txt":  "g1\t0\t6\ng2\t6\t12\n",
-	"ntaa.fa":     ">s1\nMAK\n>s2\nMA-\n",
-	"ntforaa.fa":  ">s1\nATGGCTAAG\n>s2\nATGGCT\n",
+	"coords.txt":  "0\t6\tg1\n6\t12\tg2\n0,8\t4,12\tg3\t-\n",
+	"ntaa.fa":     ">s1\nMEL\n>s2\nME-\n",
+	"ntforaa.fa":  ">s1\nATGGAACTG\n>s2\nATGGAA\n",
 	"profile.txt": "site\t-\tA\tC\tG\tN\tT\n0\t0\t4\t0\t0\t0\t0\n",
 }
 
